@@ -315,10 +315,16 @@ def fcmp(s: Src):
             "fn = builder.fcmp_ordered if is_ordered else builder.fcmp_unordered",
             "val_map[op.results[0]] = fn(cmpop, val_map[op.lhs], val_map[op.rhs])"]
     got = [norm(st) for st in fn.body]
+    # the repaired form (proposed fix C23-3) maps "_false"/"_true" to LLVM's "false"/"true"
+    strips = False
+    for alt in ("cmpop = _FCMP_CMP_MAP.get(key, pred.lstrip('_'))", "cmpop = _FCMP_CMP_MAP.get(key, pred.removeprefix('_'))"):
+        if len(got) == len(want) and got[5] == alt:
+            got[5] = want[5]
+            strips = True
     if got != want:
         bad = next((a for a, b in zip(fn.body, want) if norm(a) != b), fn)
         raise U(s.rel, bad, "unexpected body of _convert_fcmp (the hand model C23/Model.v:fcmp_convert mirrors it)")
-    return table, s.span(fn)
+    return table, strips, s.span(fn)
 
 
 def dispatch(s: Src):
@@ -363,34 +369,47 @@ def table_keys(s: Src, name: str):
 
 
 def convert_func_shape(s_conv: Src, s_op: Src):
+    """shape check of _convert_func / _convert_br / _convert_condbr (the algorithm is hand-modelled in C23/Model.v)
+    and detection of the two repaired variants (proposed fixes C23-1, C23-2), whose exact statements are required"""
     fn = s_conv.need("funcs", "_convert_func")
-    txt = norm(fn)
+    txt = flat(fn)
+    ordered = "PostOrderIterator" in txt
     need = ["for i, block in enumerate(op.body.blocks):",
             "llvm_block = func.append_basic_block(name=block.name_hint or '')",
             "for arg, llvm_arg in zip(block.args, func.args):",
             "phi = builder.phi(convert_type(arg.type))",
             "val_map[arg] = phi",
-            "for block in op.body.blocks:",
             "for op_in_block in block.ops:",
             "convert_op(op_in_block, builder, val_map, block_map)"]
+    if ordered:
+        need += ["order = list(reversed(tuple(PostOrderIterator(op.body.blocks[0]))))",
+                 "order += [b for b in op.body.blocks if not any((b is o for o in order))]",
+                 "for block in order:"]
+    else:
+        need += ["for block in op.body.blocks:"]
     for line in need:
         if line not in txt:
             raise U(s_conv.rel, fn, f"_convert_func no longer contains `{line}` (hand model C23/Model.v:conv_func mirrors it)")
     br = s_op.need("funcs", "_convert_br")
     cbr = s_op.need("funcs", "_convert_condbr")
-    tb, tc = norm(br), norm(cbr)
+    tb, tc = flat(br), flat(cbr)
+    same_block_special = "then_block is else_block" in tc
+    cb_lines = ["for arg, val in zip(then_block.args, op.then_arguments):",
+                "for arg, val in zip(else_block.args, op.else_arguments):",
+                "phi.add_incoming(val_map[val], current_block)",
+                "builder.cbranch(val_map[op.cond], block_map[then_block], block_map[else_block])"]
+    if same_block_special:
+        cb_lines += ["if then_block is else_block:\ncond = val_map[op.cond]\n"
+                     "for arg, t, e in zip(then_block.args, op.then_arguments, op.else_arguments):\n"
+                     "phi = val_map[arg]\nassert isinstance(phi, PhiInstr)\n"
+                     "val = val_map[t] if t is e else builder.select(cond, val_map[t], val_map[e])\n"
+                     "phi.add_incoming(val, current_block)\nphi.add_incoming(val, current_block)\n"
+                     "builder.cbranch(cond, block_map[then_block], block_map[else_block])\nreturn"]
     for t, lines, f in ((tb, ["for arg, val in zip(dest.args, op.arguments):", "phi.add_incoming(val_map[val], current_block)",
-                              "builder.branch(block_map[dest])"], br),
-                        (tc, ["for arg, val in zip(then_block.args, op.then_arguments):",
-                              "for arg, val in zip(else_block.args, op.else_arguments):",
-                              "phi.add_incoming(val_map[val], current_block)",
-                              "builder.cbranch(val_map[op.cond], block_map[then_block], block_map[else_block])"], cbr)):
+                              "builder.branch(block_map[dest])"], br), (tc, cb_lines, cbr)):
         for line in lines:
             if line not in t:
                 raise U(s_op.rel, f, f"branch conversion no longer contains `{line}`")
-    # which variant of the multi-edge handling is present (see known finding C23-kf-1 / proposed fix C23-1)
-    same_block_special = "then_block is else_block" in tc or "then_block == else_block" in tc
-    ordered = "PostOrderIterator" in txt or "_blocks_in_dominance_order" in txt or "reversed(" in txt
     return {"condbr_same_block_special_case": same_block_special, "blocks_converted_in_dominance_order": ordered,
             "spans": {"_convert_func": s_conv.span(fn), "_convert_br": s_op.span(br), "_convert_condbr": s_op.span(cbr)}}
 
@@ -567,7 +586,7 @@ def extract(repo: Path) -> dict:
     t["icmp_signed_method"], t["icmp_unsigned_method"], t["icmp_operands"], sp_icmp = convert_icmp(so)
     t["cast_op_names"] = cast_op_names(so)
     t["cast_flag_arms"], sp_cast = convert_cast(so)
-    t["fcmp_cmp_map"], sp_fcmp = fcmp(so)
+    t["fcmp_cmp_map"], t["fcmp_strips_underscore"], sp_fcmp = fcmp(so)
     disp, sp_disp = dispatch(so)
     t["dispatch_arms"] = [(k, n) for k, n, _ in disp]
     dispatched = []
@@ -645,6 +664,7 @@ def render(t: dict) -> str:
     A(f"Definition cast_flag_arms : list (string * (string * (string * list string))) :=\n  {arms(t['cast_flag_arms'])}.")
     A("(* _FCMP_CMP_MAP *)")
     A(f"Definition fcmp_cmp_map : list (string * string) := {cpairs(t['fcmp_cmp_map'])}.")
+    A(f"Definition fcmp_strips_underscore : bool := {'true' if t['fcmp_strips_underscore'] else 'false'}.")
     A("(* op classes convert_op has an arm for (tables expanded), in arm order *)")
     A(f"Definition dispatched : list string :=\n  {cl(cs(c) for c in t['dispatched'])}.")
     A("(* every op class registered in Dialect(\"llvm\", ...): (class, (op name, all ancestors)) *)")
